@@ -211,6 +211,9 @@ func (a *Analysis) ExactlyOnce() []Finding {
 		if n >= 2 {
 			out = append(out, Finding{"qos2-duplicate", fmt.Sprintf("QoS 2 message %s was delivered onward %d times by a session-keeping broker (method %s)", s.Step.Tag, n, r.Sc.Cfg.Method)})
 		}
+		if n == 0 && (r.Stuck || r.Livelock) {
+			out = append(out, Finding{"qos2-not-delivered", fmt.Sprintf("QoS 2 message %s was accepted but never delivered onward, and never will be: the run is certified stuck / live-locked (method %s)", s.Step.Tag, r.Sc.Cfg.Method)})
+		}
 		if n == 0 && r.Quiescent {
 			out = append(out, Finding{"qos2-not-delivered", fmt.Sprintf("QoS 2 message %s was never delivered onward although the run is quiescent (method %s)", s.Step.Tag, r.Sc.Cfg.Method)})
 		}
